@@ -18,9 +18,10 @@ MeaningWith(b, atoms) == CASE b.b = "atom" -> Atom(atoms[b.v])
                            [] b.b = "not" -> Not(MeaningWith(b.x, atoms))
                            [] OTHER -> Strip(Nary(b.b, [i \in 1..Len(b.xs) |-> MeaningWith(b.xs[i], atoms)]))
 TC10 == /\ Ev.e = "c10" /\ ~Ev.panic /\ Ev.reparse_ok
-        /\ Strip(Ev.parsed) = MeaningWith(Ev.term, Ev.atoms)
+        /\ (~Ev.sem_only => Strip(Ev.parsed) = MeaningWith(Ev.term, Ev.atoms))      \* same operator tree, grouping preserved
+        /\ SameQuestion(Ev.parsed, MeaningWith(Ev.term, Ev.atoms))                  \* and in any case the same question
 TC07 == /\ Ev.e = "c07" /\ ~Ev.panic
-        /\ Ev.accepted => (Ev.reparse_ok /\ Ev.fixpoint /\ Ev.tokens_ok)
+        /\ Ev.accepted => (Ev.reparse_ok /\ Ev.fixpoint /\ Ev.tokens_ok /\ Ev.order_ok)
 \* kinds keep their all-of / any-of meaning through emit and parse
 TKind == /\ Ev.e = "kind" /\ ~Ev.panic /\ Ev.reparse_ok
          /\ Len(Ev.kinds) = Ev.n /\ Cardinality({Ev.kinds[i] : i \in DOMAIN Ev.kinds}) = Ev.n
